@@ -1855,7 +1855,14 @@ impl<'a> Parser<'a> {
             s.error("Cannot use 'self' outside of a class.");
             return;
         }
-        if s.compiler().kind == FunctionKind::StaticMethod {
+        // (The method that a function or lambda nested in it belongs to is what counts.)
+        let in_static_method = s
+            .compilers
+            .iter()
+            .rev()
+            .find(|c| c.kind != FunctionKind::Function)
+            .map_or(false, |c| c.kind == FunctionKind::StaticMethod);
+        if in_static_method {
             s.error("Cannot use 'self' in a static method.");
             return;
         }
